@@ -5,6 +5,7 @@
 //         | sub x0 y0 w h   (point overload)      | sub5 x0 y0 w h  (x,y,w,h overload)
 //         | subs sx sy      (point overload)      | subs2 sx sy     (two-integer overload)
 //         | nth n | cc <P> | ccx <P> | anycc <P> | anyccx <P>          P in g8 rgb8 bgr8 rgba8 rgb16
+//           (ccx / anyccx pass the STATEFUL user converter sum_cc(cc_offset(s)))
 //   ->  A:<status> i=<index of the result variant> ty=<1 iff the held alternative has the type of the concrete result>
 //          w= h= nc= sz= px=<pixels read through the any result> src=<source image after writing through the any result>
 //     | C:ok w= h= nc= sz= px= src=       the same operation on the concrete view
@@ -64,13 +65,13 @@ struct Nth : op_base { int n;
     static constexpr bool compiled = false;
 #endif
     template <class V> auto conc(V const& v) const { return gil::nth_channel_view(v, n); } };
-struct ro_base : op_base { static constexpr bool writable = false; };
+struct ro_base : op_base { static constexpr bool writable = false; uint64_t off = 0; };   // off: state of the user converter
 template <class P> struct CC : ro_base { int out_depth(int) const { return pinfo<P>::depth; }
     template <class V> auto any(V const& v) const { return gil::color_converted_view<P>(v); }
     template <class V> auto conc(V const& v) const { return gil::color_converted_view<P>(v); } };
 template <class P> struct CCX : ro_base { int out_depth(int) const { return pinfo<P>::depth; }
-    template <class V> auto any(V const& v) const { return gil::color_converted_view<P>(v, sum_cc()); }
-    template <class V> auto conc(V const& v) const { return gil::color_converted_view<P>(v, sum_cc()); } };
+    template <class V> auto any(V const& v) const { return gil::color_converted_view<P>(v, sum_cc(off)); }
+    template <class V> auto conc(V const& v) const { return gil::color_converted_view<P>(v, sum_cc(off)); } };
 template <class P> struct AnyCC : ro_base { int out_depth(int) const { return pinfo<P>::depth; }
 #ifdef HAVE_ANYCC
     template <class V> auto any(V const& v) const { return gil::any_color_converted_view<P>(v); }
@@ -80,11 +81,11 @@ template <class P> struct AnyCC : ro_base { int out_depth(int) const { return pi
     template <class V> auto conc(V const& v) const { return gil::color_converted_view<P>(v); } };
 template <class P> struct AnyCCX : ro_base { int out_depth(int) const { return pinfo<P>::depth; }
 #ifdef HAVE_ANYCC
-    template <class V> auto any(V const& v) const { return gil::any_color_converted_view<P>(v, sum_cc()); }
+    template <class V> auto any(V const& v) const { return gil::any_color_converted_view<P>(v, sum_cc(off)); }
 #else
     static constexpr bool compiled = false;
 #endif
-    template <class V> auto conc(V const& v) const { return gil::color_converted_view<P>(v, sum_cc()); } };
+    template <class V> auto conc(V const& v) const { return gil::color_converted_view<P>(v, sum_cc(off)); } };
 
 template <typename View> void toggle00(View const& v) { toggle_at(v, 0, 0); }
 
@@ -118,16 +119,16 @@ std::string run_xf(std::string const& T, std::ptrdiff_t w, std::ptrdiff_t h, uin
 
 template <typename AnyImg, template <class> class OpT>
 std::string by_pixel(std::string const& P, std::string const& T, std::ptrdiff_t w, std::ptrdiff_t h, uint64_t s) {
-    if (P == "g8")    return run_xf<AnyImg>(T, w, h, s, OpT<gil::gray8_pixel_t>());
-    if (P == "rgb8")  return run_xf<AnyImg>(T, w, h, s, OpT<gil::rgb8_pixel_t>());
-    if (P == "bgr8")  return run_xf<AnyImg>(T, w, h, s, OpT<gil::bgr8_pixel_t>());
-    if (P == "rgb16") return run_xf<AnyImg>(T, w, h, s, OpT<gil::rgb16_pixel_t>());
+    if (P == "g8") { OpT<gil::gray8_pixel_t> o; o.off = cc_offset(s); return run_xf<AnyImg>(T, w, h, s, o); }
+    if (P == "rgb8") { OpT<gil::rgb8_pixel_t> o; o.off = cc_offset(s); return run_xf<AnyImg>(T, w, h, s, o); }
+    if (P == "bgr8") { OpT<gil::bgr8_pixel_t> o; o.off = cc_offset(s); return run_xf<AnyImg>(T, w, h, s, o); }
+    if (P == "rgb16") { OpT<gil::rgb16_pixel_t> o; o.off = cc_offset(s); return run_xf<AnyImg>(T, w, h, s, o); }
     return "bad-op";
 }
 // destination rgba: the library converts to rgba for homogeneous sources only, so the list without g1 is used
 template <template <class> class OpT>
 std::string by_pixel_all(std::string const& P, std::string const& T, std::ptrdiff_t w, std::ptrdiff_t h, uint64_t s) {
-    if (P == "rgba8") return run_xf<L6>(T, w, h, s, OpT<gil::rgba8_pixel_t>());
+    if (P == "rgba8") { OpT<gil::rgba8_pixel_t> o; o.off = cc_offset(s); return run_xf<L6>(T, w, h, s, o); }
     return by_pixel<L7, OpT>(P, T, w, h, s);
 }
 
@@ -186,7 +187,7 @@ int main() {
                 if (j >= a.size()) return;
                 if (a[j] == "nth" && j + 1 < a.size()) { Nth o; o.n = (int)hv::to_ll(a[j + 1]); out = run_xf2<L6>(T, w, h, s, op1, o); return; }
                 if (a[j] == "cc" && j + 1 < a.size() && a[j + 1] == "g8") { out = run_xf2<L7>(T, w, h, s, op1, CC<gil::gray8_pixel_t>()); return; }
-                if (a[j] == "ccx" && j + 1 < a.size() && a[j + 1] == "rgb8") { out = run_xf2<L7>(T, w, h, s, op1, CCX<gil::rgb8_pixel_t>()); return; }
+                if (a[j] == "ccx" && j + 1 < a.size() && a[j + 1] == "rgb8") { CCX<gil::rgb8_pixel_t> o; o.off = cc_offset(s); out = run_xf2<L7>(T, w, h, s, op1, o); return; }
                 with_geom(a, j, 0, [&](auto op2) { out = run_xf2<L7>(T, w, h, s, op1, op2); });
             });
             return ok1 ? out : std::string("other-tu");
